@@ -198,8 +198,11 @@ def rule_bounds(rep: Report, cu: CUnit) -> None:
                         key = (name, p)
                         outparams[key] = outparams.get(key, True) and (is_addr or is_fwd)
     for name, fn in fns.items():
+        unevaluated = {id(x) for t_ in walk(cu.body(name)) if t_.get('kind') == 'UnaryExprOrTypeTraitExpr' for x in walk(t_)}       # sizeof operands
         for sub in walk(cu.body(name)):
             k = sub.get('kind')
+            if id(sub) in unevaluated:
+                continue
             if k == 'ArraySubscriptExpr':
                 _judge_subscript(rep, cu, fn, sub)
             elif k == 'UnaryOperator' and sub.get('opcode') == '*':
@@ -235,6 +238,9 @@ def _base_key(cu: CUnit, base: Dict[str, Any]) -> Tuple[str, str]:
 
 def _judge_subscript(rep: Report, cu: CUnit, fn: Fn, sub: Dict[str, Any]) -> None:
     base, idx = sub['inner']
+    si_ = strip(idx)
+    if si_.get('kind') == 'UnaryOperator' and si_.get('opcode') in ('++', '--') and si_.get('isPostfix'):
+        idx = si_['inner'][0]                # a[i++] indexes with the value i has when the test before it was made
     fam, owner = _base_key(cu, base)
     site = cu.site(sub, fn.name)
     construct = f'{fn.name}:{cu.src_of(base)}[{cu.src_of(idx)}]'
@@ -541,9 +547,71 @@ def rule_alloc(rep: Report, cu: CUnit) -> None:
         raise AnalysisError(f'C11.ALLOC: {n_sites} allocation sites found, 7 expected')
 
 
+_WLin = Tuple[int, int]          # (coefficient of w, constant): the value coef * w + const
+
+
+def _amount_bounds(cu: CUnit, fn: 'Fn', site_node: Dict[str, Any], ir: lx.IR, depth: int = 0) -> Optional[Tuple[_WLin, _WLin]]:
+    """[lo, hi] of a shift amount, each bound linear in the width w (so `w - (x & (w - 1))` keeps its correlation): w / width is
+    w itself, ww in [3, 6], macro constants, `x & m` in [0, hi(m)], single-definition locals read through, and the facts that
+    dominate the shift (a variable known non-zero starts at 1). None: not bounded by these."""
+    if depth > 6:
+        return None
+    t = ir[0]
+    facts = fn.atomic_facts(site_node)
+
+    def known_nonzero(name: str) -> bool:
+        return any((op == 'truthy' and lx.show(a) == name) or (op == '!=' and lx.show(a) == name and b == ('num', 0)) for op, a, b in facts)
+    if t == 'num':
+        return (0, ir[1]), (0, ir[1])
+    name = lx.show(ir) if t in ('sym', 'attr') else None
+    if name is not None:
+        base = name.split('.')[-1]
+        if base in ('w', 'width') and (t == 'attr' or name in cu.params(fn.name) or name not in fn.defs):
+            return (1, 0), (1, 0)
+        if base == 'ww' and (t == 'attr' or name in cu.params(fn.name) or name not in fn.defs):
+            return (0, 3), (0, 6)
+        if t == 'sym' and name in cu.macros:
+            try:
+                v = cu.macro_int(name)
+                return (0, v), (0, v)
+            except AnalysisError:
+                return None
+        if t == 'sym':
+            ds = fn.defs.get(name) or []
+            if len(ds) == 1:
+                b = _amount_bounds(cu, fn, site_node, c_ir(ds[0], cu.src_of), depth + 1)
+                if b is not None and known_nonzero(name) and b[0] == (0, 0):
+                    b = ((0, 1), b[1])
+                return b
+        return None
+    if t == 'bin':
+        a = _amount_bounds(cu, fn, site_node, ir[2], depth + 1)
+        b = _amount_bounds(cu, fn, site_node, ir[3], depth + 1)
+        if ir[1] == '&':
+            his = [x[1] for x in (a, b) if x is not None and min(x[0][0] * w_ + x[0][1] for w_ in (8, 64)) >= 0]      # a non-negative operand bounds the result
+            if not his:
+                return None
+            lo0 = 1 if known_nonzero(lx.show(ir)) else 0          # the masked value itself is known non-zero here
+            return (0, lo0), min(his, key=lambda h: h[0] * 64 + h[1])
+        if a is None or b is None:
+            return None
+        if ir[1] == '-':
+            return (a[0][0] - b[1][0], a[0][1] - b[1][1]), (a[1][0] - b[0][0], a[1][1] - b[0][1])
+        if ir[1] == '+':
+            return (a[0][0] + b[0][0], a[0][1] + b[0][1]), (a[1][0] + b[1][0], a[1][1] + b[1][1])
+    return None
+
+
+def _numeric(b: Tuple[_WLin, _WLin], w_hi: int) -> Tuple[int, int]:
+    lo = min(b[0][0] * w + b[0][1] for w in (8, w_hi))
+    hi = max(b[1][0] * w + b[1][1] for w in (8, w_hi))
+    return lo, hi
+
+
 def rule_shift(rep: Report, cu: CUnit) -> None:
-    rep.rule('C11.SHIFT', 'every shift amount is provably below 64: a literal, a width log (ww), a bit offset masked with w-1, '
-             'w - bit_offset under bit_offset != 0, or w itself only under w != 64', 40)
+    rep.rule('C11.SHIFT', 'every shift amount is provably in [0, 63]: interval arithmetic over literals and macro constants, the width '
+             '(8..64, at most 32 under a `!= 64` fact) and its log (3..6), `x & (w - 1)` style masks, single-definition locals, and '
+             'the facts dominating the shift (an offset known non-zero makes `w - offset` at most 63)', 40)
     for name in cu.funcs:
         fn = None
         for n in walk(cu.body(name)):
@@ -556,29 +624,18 @@ def rule_shift(rep: Report, cu: CUnit) -> None:
             if v is not None:
                 rep.check(0 <= v < 64, 'C11.SHIFT', construct, f'literal shift {v}', site)
                 continue
-            t = cu.src_of(strip(amt)).replace(' ', '')
-            ok = None
-            if t in ('ww', 'm->ww', 'self->ww', '(uint64_t)self->ww', 'PAGE_BITS'):
-                ok = 'width log2 (<= 6) / page bits'
-            elif any(t == s.replace(' ', '') for s in ('(f & bit_mask)', 'f & bit_mask', '(bit_address & (uint64_t)(m->w - 1))',
-                                                         'bit_address & (uint64_t)(m->w - 1)', 'bit_offset')):
-                ok = 'bit offset masked with w-1 (< 64)'
-            elif t in ('m->w-bit_offset', '(m->w-bit_offset)'):
-                if fn is None:
-                    fn = Fn(cu, name)
-                facts = {(op, lx.show(a), lx.show(b)) for op, a, b in fn.atomic_facts(n)}
-                if ('!=', 'bit_offset', '0') in facts:
-                    ok = 'w - bit_offset with bit_offset in [1, w-1]'
-            elif t == 'w':
-                if fn is None:
-                    fn = Fn(cu, name)
-                facts = {(op, lx.show(a), lx.show(b)) for op, a, b in fn.atomic_facts(n)}
-                if ('!=', 'w', '64') in facts:
-                    ok = '1 << w only when w != 64'
-            if ok:
-                rep.ok('C11.SHIFT', construct, ok, site)
+            if fn is None:
+                fn = Fn(cu, name, {'with_ring': 1} if name == 'run_paged_loop_impl' else {})
+            b = _amount_bounds(cu, fn, n, c_ir(amt, cu.src_of))
+            # the width is at most 64, at most 32 where a `w != 64` fact dominates the shift
+            w_names = {lx.show(x) for x in [c_ir(amt, cu.src_of)] + [c_ir(d, cu.src_of) for ds in fn.defs.values() for d in ds]
+                       for x in [x]}
+            w_hi = 32 if any(op == '!=' and lx.show(a).split('.')[-1] in ('w', 'width') and bb == ('num', 64) for op, a, bb in fn.atomic_facts(n)) else 64
+            nb = _numeric(b, w_hi) if b is not None else None
+            if nb is not None and 0 <= nb[0] and nb[1] <= 63:
+                rep.ok('C11.SHIFT', construct, f'amount {cu.src_of(amt)} in [{nb[0]}, {nb[1]}]', site)
             else:
-                rep.fail('C11.SHIFT', construct, f'shift amount {cu.src_of(amt)} not recognised as < 64', site)
+                rep.fail('C11.SHIFT', construct, f'shift amount {cu.src_of(amt)} not bounded below 64 (interval {nb})', site)
 
 
 # ---------------------------------------------------------------- C11.OWNERSHIP / ERRORS
@@ -919,9 +976,14 @@ def _var_from_failing(cu: CUnit, g: Graph, at: int, var: str, failing: Set[str])
 
 
 def check(rep: Report, repo: Optional[Repo] = None) -> None:
+    from ..spec.machine import ROLES_C as M_ROLES_C
     repo = repo or Repo()
     cu = CUnit(repo)
-    rep.units = dict(c_functions=len(cu.funcs), functions=sorted(cu.funcs))
+    # outside the run loops (which have their own structural analyses and keyed findings) a local that merely names an expression
+    # (`Slot* const slots = self->slots`, `index_mask = count - 1`, `kept = self->list`) reads as that expression
+    n_inl = sum(cu.inline_pure_locals(f) for f in cu.funcs if f not in M_ROLES_C and not any(
+        c.get('kind') == 'CallExpr' and callee(c) in ('memcpy', 'memset') for c in walk(cu.body(f))))       # the mem* clamp idiom is read by name (lo / hi)
+    rep.units = dict(c_functions=len(cu.funcs), functions=sorted(cu.funcs), locals_read_through=n_inl)
     rule_bounds(rep, cu)
     rule_overflow(rep, cu)
     rule_alloc(rep, cu)
